@@ -4,7 +4,7 @@ import json, os
 
 HERE = os.path.dirname(os.path.dirname(os.path.abspath(__file__)))
 
-TECH = "symbolic execution of the real torchphysics code on z3-term tensors (SymTorch dispatch mode, real autograd) + z3 SMT verdict per path; counterexamples replayed on the real code"
+TECH = "symbolic execution of the real torchphysics code on z3-term tensors (SymTorch dispatch mode, real autograd) + z3 SMT verdict per path (proof ladder incl. cube splitting); counterexamples and concrete path witnesses replayed on the real code in a clean process"
 
 CLAIMED = {
     # id: (design_ref, text, note)
@@ -48,8 +48,8 @@ CLAIMED = {
             "Bounded symbolic model checking of the index arithmetic: the real dataset classes run on symbolic sizes/batch sizes/indices (16-bit bit-vectors with proved no-overflow obligations) with index-recording stand-ins; pairing/in-range/batch-size per path and coverage with the bounded forall expanded into one query; plus real loaders on symbolic data cells with every permutation forked; full-dataset aggregation of DataCondition.",
             "all sizes and batch sizes <=6 (quick)/<=10 (thorough); DataLoader(batch_size=None) modelled as for idx in range(len(ds)) in route A (route B iterates the real DataLoader)"),
     "C01": ("DESIGN.md §2 C01",
-            "Bounded symbolic model checking: every sampling method of every catalogue shape (and the point samplers on top) is executed with symbolic shape parameters, parameter rows and random draws; accept/reject outcomes, grid sizes and loop iterations fork paths; on every path each returned row is proved (z3) to lie in the independently defined set (closure resp. boundary band) of its parameter row, and no feasible path may raise.",
-            "n<=2 (quick)/<=4 (thorough), k<=2; rejection loops unwound to the stated fork bounds (unwound paths are reported, not counted as success); a.s. termination not claimed; 2-D Boolean boundaries in the thorough tier only"),
+            "Bounded symbolic model checking: every sampling method of every catalogue shape (and the point samplers on top) is executed with symbolic shape parameters, parameter rows and random draws; accept/reject outcomes, grid sizes and loop iterations fork paths; on every path each returned row is proved (z3) to lie in the independently defined set (closure resp. boundary band) of its parameter row, and no feasible path may raise; histories (A, B, A again; shared inner objects; adaptive samplers called again with other rows) are part of the cases. Termination twin: one path beyond the unwinding bound is replayed on the real code (inputs on the grid Z/16, non-empty set) with a 30 s limit.",
+            "n<=2 (quick)/<=4 (thorough), k<=2; rejection loops unwound to the stated fork bounds (unwound paths are reported, not counted as success); termination is only tested on the replayed path, almost-sure termination in general is not claimed; 2-D Boolean boundaries in the thorough tier only; the thorough tier is sized by wall time (cases not started are listed as not run)"),
     "C02": ("DESIGN.md §2 C02",
             "Bounded symbolic model checking: samplers and the sampler algebra run with symbolic parameter rows, filters and random draws (accept/reject forked); row counts are checked on every path and every parameter column of every returned row is proved (z3) equal to the input parameter row it must carry; products/concat/append are compared with recorded sub-samples.",
             "shape parameters concrete (row counts and pairing do not depend on the geometry), n<=2/4, k<=2/3, algebra depth 1/2; 2-D Boolean combinations in the thorough tier only"),
